@@ -12,7 +12,7 @@ use crate::refs::wrap::GzFields;
 pub const INFO: CheckInfo = CheckInfo {
     prop: "C16",
     level: "model_checking",
-    rule: "explicit enumeration of ALL programs up to a depth over the exported entry points with small argument domains, executed in lock-step on libz-rs-sys and on zlib-ng 2.3.3 (R6): compression side = C06's 47-operation alphabet incl. illegal init parameters (level -2/10, method 7, windowBits 7/16/32/47, memLevel 0/10, strategy 5/-1) and deflatePrime at any point; decompression side = {inflate (5 flush values x {all input, 1 byte, none} x {ample, 1, 0 bytes of room}), inflatePrime ((0,0),(3,5),(16,0x1234),(16,-1),(17,0),(-1,0)), inflateSync, inflateSyncPoint, inflateValidate(0/1), inflateUndermine(1/-1), inflateResetKeep, inflateReset, inflateReset2 (-15,31,47,7,0), inflateGetHeader, inflateSetDictionary (right/wrong), inflateGetDictionary, inflateCopy (continue on copy / end copy), inflateCodesUsed, inflateEnd} after inflateInit2 over {15,-15,31,47,0,-8,8,7,16,48,-16} on five data sets (valid zlib, valid gzip with header fields, raw, corrupt, zlib with FDICT, empty); one-shot helpers compress/compress2/uncompress/uncompress2 on size lattices; NULL stream / NULL buffer arguments where zlib defines the result. After every call: same return code, same input consumed, same output bytes produced; the process must never terminate. zlib-ng is run first in a forked child (pre-screen): programs on which the reference itself crashes are counted as skipped_ng_ub. Family params-rooms: deflateInit2 (10 levels x 5 strategies) ; deflate (5 sizes, no flush / sync flush) ; deflateParams (6 new settings) with 12 output rooms (0..=9, 64, ample) x {0, 5} new input bytes ; deflate(Z_FINISH), every call compared. Not compared (as the property lists): totals after a dictionary request, inflateMark, dictionary length, message texts, inflateUndermine's own status, deflatePending/deflateBound values.",
+    rule: "explicit enumeration of ALL programs up to a depth over the exported entry points with small argument domains, executed in lock-step on libz-rs-sys and on zlib-ng 2.3.3 (R6): compression side = C06's 47-operation alphabet incl. illegal init parameters (level -2/10, method 7, windowBits 7/16/32/47, memLevel 0/10, strategy 5/-1) and deflatePrime at any point; decompression side = {inflate (5 flush values x {all input, 1 byte, none} x {ample, 1, 0 bytes of room}), inflatePrime ((0,0),(3,5),(16,0x1234),(16,-1),(17,0),(-1,0)), inflateSync, inflateSyncPoint, inflateValidate(0/1), inflateUndermine(1/-1), inflateResetKeep, inflateReset, inflateReset2 (-15,31,47,7,0), inflateGetHeader, inflateSetDictionary (right/wrong), inflateGetDictionary, inflateCopy (continue on copy / end copy), inflateCodesUsed, inflateEnd} after inflateInit2 over {15,-15,31,47,0,-8,8,7,16,48,-16} on five data sets (valid zlib, valid gzip with header fields, raw, corrupt, zlib with FDICT, empty); one-shot helpers compress/compress2/uncompress/uncompress2 on size lattices; NULL stream / NULL buffer arguments where zlib defines the result. After every call: same return code, same input consumed, same output bytes produced; the process must never terminate. zlib-ng is run first in a forked child (pre-screen): programs on which the reference itself crashes are counted as skipped_ng_ub. Family params-rooms: deflateInit2 (10 levels x 5 strategies) ; deflate (5 sizes, no flush / sync flush) ; deflateParams (6 new settings) with 12 output rooms (0..=9, 64, ample) x {0, 5} new input bytes ; deflate(Z_FINISH), every call compared. Family tune-matrix: deflateTune with 26 C-int values (INT_MIN..INT_MAX) for each parameter and for all four x 9 levels x 2 strategies, then one deflate(Z_FINISH): statuses and compressed bytes. Not compared (as the property lists): totals after a dictionary request, inflateMark, dictionary length, message texts, inflateUndermine's own status, deflatePending/deflateBound values.",
     assumptions: &["zlib-ng 2.3.3 in compat mode is the reference", "decoding data whose back-references exceed the window announced to inflateInit2 is excluded (zlib-ng's small window makes its own verdict depend on chunking; zlib-rs always keeps 32 KiB, see C03)", "argument values outside the enumerated domains and deeper programs are not covered"],
     bound_quick: "compression: depth 3 over the full alphabet on 3 configs, depth 2 on 7 + all illegal configs depth 2; decompression: depth 3 over a 30-operation alphabet on 6 data sets x 3 init modes, depth 2 on the rest",
     bound_thorough: "compression depth 3 everywhere / depth 4 reduced alphabet; decompression depth 4 on the reduced alphabet",
@@ -519,10 +519,8 @@ fn deflate_side(ctx: &mut Ctx, env: &OpEnv) {
                             // (block_open of deflate_quick survives the reset): if the reference's own final stream does not
                             // decode while zlib-rs's does, the reference is not an oracle for this program
                             if let (Ok(ra), Ok(rb)) = (&a, &b) {
-                                if !rb.reset_at.is_empty() && ra.finished && rb.finished {
+                                if !rb.reset_at.is_empty() {
                                     let wrap = if wb < 0 { Wrap::Raw } else if wb > 15 { Wrap::Gzip } else { Wrap::Zlib };
-                                    let seg_a = &ra.total_out[*ra.reset_at.last().unwrap()..];
-                                    let seg_b = &rb.total_out[*rb.reset_at.last().unwrap()..];
                                     // (a stream that has lost its first block header may still happen to decode - to other
                                     // bytes: the plaintext after the reset is a contiguous piece of the input source, so a
                                     // decode that is not such a piece is as wrong as one that fails)
@@ -531,12 +529,22 @@ fn deflate_side(ctx: &mut Ctx, env: &OpEnv) {
                                         hay.extend_from_slice(&env.data[..env.data.len().min(out.len())]);
                                         hay.windows(out.len()).any(|w| w == out)
                                     };
-                                    let plain = |seg: &[u8]| match crate::checks::c01::decode_ref(wrap, seg) {
+                                    // every stream the reference started after a reset - finished or not (then: what its
+                                    // bytes so far decode to) - must be a valid (prefix of a) stream carrying such a piece
+                                    let plain = |seg: &[u8], complete: bool| match crate::checks::c01::decode_ref(wrap, seg) {
                                         crate::refs::wrap::Wrapped::Ok { out, .. } => Some(out),
+                                        crate::refs::wrap::Wrapped::Short { out } if !complete => Some(out),
                                         _ => None,
                                     };
-                                    let _ = seg_a;
-                                    let ok_b = plain(seg_b).map_or(false, |o| is_piece(&o));
+                                    let mut ok_b = true;
+                                    for (i, &from) in rb.reset_at.iter().enumerate() {
+                                        let last = i + 1 == rb.reset_at.len();
+                                        let to = rb.reset_at.get(i + 1).copied().unwrap_or(rb.total_out.len());
+                                        // the last stream must be complete when the run reached Z_STREAM_END
+                                        if from <= to && to <= rb.total_out.len() && !plain(&rb.total_out[from..to], last && rb.finished).map_or(false, |o| is_piece(&o)) {
+                                            ok_b = false;
+                                        }
+                                    }
                                     if !ok_b {
                                         c.count("not_compared_reference_emits_invalid_stream_after_reset", 1);
                                         return Ok(());
@@ -1083,10 +1091,85 @@ fn params_rooms(ctx: &mut Ctx) {
     }
 }
 
+/// deflateInit2 ; deflateTune(...) ; one deflate(Z_FINISH): status of each call and the compressed bytes
+unsafe fn tune_prog<Zx: Z>(level: i32, st: i32, tune: [i32; 4], data: &[u8], ain: &Arena, aout: &Arena) -> Result<(i32, i32, Vec<u8>), String> {
+    let mut s = Strm::plain();
+    let r = Zx::deflateInit2_(s.p(), level, 8, -15, 8, st, Zx::zlibVersion(), STREAM_SIZE);
+    if r != Z_OK {
+        return Err(format!("{}: deflateInit2 returned {}", Zx::NAME, rc_name(r)));
+    }
+    let rt = Zx::deflateTune(s.p(), tune[0], tune[1], tune[2], tune[3]);
+    let room = data.len() * 2 + 1000;
+    let pout = aout.at_end(room);
+    s.z.next_in = ain.put(data, true);
+    s.z.avail_in = data.len() as u32;
+    s.z.next_out = pout;
+    s.z.avail_out = room as u32;
+    let rd = Zx::deflate(s.p(), Z_FINISH);
+    let n = room - s.z.avail_out as usize;
+    let out = std::slice::from_raw_parts(pout, n).to_vec();
+    Zx::deflateEnd(s.p());
+    Ok((rt, rd, out))
+}
+
+/// deflateTune with every parameter taken through the interesting values of a C int (negative, 0, around each level's
+/// own setting, 16-bit and 32-bit limits), one parameter at a time and all together, at every level: same statuses and
+/// same compressed bytes as the reference
+fn tune_matrix(ctx: &mut Ctx) {
+    let ain = Arena::new(1 << 16);
+    let aout = Arena::new(1 << 17);
+    let mut data = text(12, 2500);
+    data.extend(rep(b'x', 700));
+    data.extend(text(12, 1500));
+    data.extend(periodic(300, 2000));
+    let vals = [i32::MIN, -70000, -1, 0, 1, 2, 3, 4, 5, 8, 16, 32, 128, 257, 258, 259, 1024, 4096, 32767, 32768, 65535, 65536, 65537, 70000, 1 << 20, i32::MAX];
+    for level in 1..=9 {
+        for st in [0, 1] {
+            for which in 0..5usize {
+                for &v in &vals {
+                    // (good_length, max_lazy, nice_length, max_chain) of a middle level as the base
+                    let mut t = [8, 16, 128, 128];
+                    if which < 4 {
+                        t[which] = v;
+                    } else {
+                        t = [v, v, v, v];
+                    }
+                    // the reference's medium strategy computes 16 * max_lazy in 32-bit unsigned arithmetic: for a max_lazy
+                    // of 2^28 or more (as unsigned) whose product wraps to a small number, "no limit" accidentally
+                    // becomes "limit 0" there (e.g. INT_MIN -> 0). Not compared: zlib itself has no such product.
+                    if (t[1] as u32) >= 1 << 28 && (t[1] as u32).wrapping_mul(16) < 16 * 259 {
+                        continue;
+                    }
+                    ctx.case(
+                        "tune-matrix",
+                        || format!("deflateInit2(level={level}, raw, strategy={st}) ; deflateTune({}, {}, {}, {}) ; deflate(Z_FINISH, {} bytes)", t[0], t[1], t[2], t[3], data.len()),
+                        |c| unsafe {
+                            c.exec();
+                            let a = tune_prog::<Rs>(level, st, t, &data, &ain, &aout)?;
+                            let b = tune_prog::<Ng>(level, st, t, &data, &ain, &aout)?;
+                            if (a.0, a.1) != (b.0, b.1) {
+                                return Err(format!("zlib-rs: deflateTune {} deflate {}; zlib-ng: deflateTune {} deflate {}", rc_name(a.0), rc_name(a.1), rc_name(b.0), rc_name(b.1)));
+                            }
+                            if a.2 != b.2 {
+                                let k = a.2.iter().zip(b.2.iter()).position(|(x, y)| x != y).unwrap_or(a.2.len().min(b.2.len()));
+                                return Err(format!("compressed bytes differ after deflateTune: zlib-rs {} bytes, zlib-ng {} bytes, first difference at byte {k}", a.2.len(), b.2.len()));
+                            }
+                            c.outcome(hash_bytes(&a.2));
+                            c.validated();
+                            Ok(())
+                        },
+                    );
+                }
+            }
+        }
+    }
+}
+
 pub fn run(ctx: &mut Ctx) {
     let env = OpEnv::new();
     init_matrix(ctx);
     params_rooms(ctx);
+    tune_matrix(ctx);
     deflate_side(ctx, &env);
     inflate_side(ctx);
     one_shots(ctx);
